@@ -260,6 +260,20 @@ def sortMargin (re im : F → K) (vals : List F) : K :=
 def reExpand (take : List Nat) (vecs : Block F) : Except Err (Block F) :=
   assignRows (3 * vecs.rows / 2) vecs.ncols take vecs
 
+/-- the `if sort:` block, or nothing -/
+def sortOrNot (sort : Bool) (re im : F → K) (vals : List F) (e : Block F) : Except Err (Out F F) :=
+  if sort then sortStep re im vals e else .ok ⟨vals, e⟩
+
+/-- `take`, when `reduced_dof` is on -/
+def takeOpt (reduced : Bool) (r : Nat) : Except Err (Option (List Nat)) :=
+  if reduced then (takeIdx r).map some else .ok none
+
+/-- the `if not sparse_solver and reduced_dof:` block -/
+def freqPost (take? : Option (List Nat)) (s : Out F F) : Except Err (Out F F) :=
+  match take? with
+  | some take => (reExpand take s.vecs).map fun e' => ⟨s.vals, e'⟩
+  | none => .ok s
+
 /-- `freq(K, M, sparse_solver, sort, reduced_dof, num_eigvalues)`; `res` = what `eigs` / `eig` returned
 (`none`: it raised); `sqrtV` = `numpy.sqrt` (vectorised); `negInv x = -1./x`. -/
 def freq (n num : Nat) (sparse sort reduced : Bool) (Kc Mc : Coo K)
@@ -272,13 +286,10 @@ def freq (n num : Nat) (sparse sort reduced : Bool) (Kc Mc : Coo K)
     match res with
     | none => ([r], .error (.solverRaised 1))
     | some o =>
-      ([r], do
-        let e ← assignRows n num used o.vecs
-        let vals := sqrtV o.vals
-        if sort then sortStep re im vals e else pure ⟨vals, e⟩)
+      ([r], (assignRows n num used o.vecs).bind fun e => sortOrNot sort re im (sqrtV o.vals) e)
   else
     let check := checkCols n Mc
-    match (if reduced then (takeIdx check.length).map some else .ok none) with
+    match takeOpt reduced check.length with
     | .error e => ([], .error e)
     | .ok take? =>
       let idx := match take? with
@@ -288,15 +299,8 @@ def freq (n num : Nat) (sparse sort reduced : Bool) (Kc Mc : Coo K)
       match res with
       | none => ([r], .error (.solverRaised 1))
       | some o =>
-        ([r], do
-          let e ← assignRows n idx.length check o.vecs
-          let vals := sqrtV (o.vals.map negInv)
-          let s ← if sort then sortStep re im vals e else pure ⟨vals, e⟩
-          match take? with
-          | some take => do
-            let e' ← reExpand take s.vecs
-            pure ⟨s.vals, e'⟩
-          | none => pure s)
+        ([r], (assignRows n idx.length check o.vecs).bind fun e =>
+          (sortOrNot sort re im (sqrtV (o.vals.map negInv)) e).bind (freqPost take?))
 
 end freq
 
